@@ -124,18 +124,22 @@ def run_one_path(job, prefix):
                 if c.describe:
                     w['what'] = c.describe(model)
                 if c.scenario:
-                    sc, pred = c.scenario(model)
-                    w['scenario'] = sc
-                    w['predicted'] = pred
+                    res = c.scenario(model)
+                    pairs = res if isinstance(res, list) else [res]
+                    w['scenario'] = pairs[0][0]
+                    w['predicted'] = pairs[0][1]
+                    if len(pairs) > 1:
+                        w['scenarios'] = [p[0] for p in pairs]
+                    w['replay_agrees'] = True
                     # replay natively: dev profile (overflow checks) and release
-                    for prof in ('dev', 'release'):
-                        if prof in G['bins']:
-                            nat = native(prof).run(sc)
-                            w['native_' + prof] = {k: nat.get(k) for k in ('ok', 'panic', 'hang', 'abort')}
-                            d = compare_native(pred, nat)
-                            if prof == 'dev':
-                                w['replay_agrees'] = d is None
-                                if d is not None:
+                    for i, (sc, pred) in enumerate(pairs):
+                        for prof in ('dev', 'release'):
+                            if prof in G['bins']:
+                                nat = native(prof).run(sc)
+                                w['native_%s_%d' % (prof, i)] = {k: nat.get(k) for k in ('ok', 'panic', 'hang', 'abort')}
+                                d = compare_native(pred, nat)
+                                if prof == 'dev' and d is not None:
+                                    w['replay_agrees'] = False
                                     w['replay_diff'] = d
                 rec['status'] = 'violation'
                 rec.setdefault('witnesses', []).append(w)
@@ -152,14 +156,15 @@ def run_one_path(job, prefix):
                     if c.describe and want_sample:
                         rec['sample'] = c.describe(model)
                     if want_val:
-                        sc, pred = c.scenario(model)
-                        nat = native('dev').run(sc)
-                        d = compare_native(pred, nat)
-                        if d is not None:
-                            rec['status'] = 'engine_mismatch'
-                            rec['detail'] = {'scenario': sc, 'diff': d}
-                        else:
-                            rec['validated'] = 1
+                        res = c.scenario(model)
+                        for sc, pred in (res if isinstance(res, list) else [res]):
+                            nat = native('dev').run(sc)
+                            d = compare_native(pred, nat)
+                            if d is not None:
+                                rec['status'] = 'engine_mismatch'
+                                rec['detail'] = {'scenario': sc, 'diff': d}
+                                break
+                            rec['validated'] += 1
     except Unmodelled as e:
         rec['status'] = 'inconclusive'
         rec['detail'] = str(e)
